@@ -227,6 +227,17 @@ func generate(thorough bool, emit func(kase)) {
 			emit(kase{Family: "multi-record-hello-declared", Desc: fmt.Sprintf("declares %d, 80 kB follow", declared), Keys: true, First: full})
 			emit(kase{Family: "multi-record-hello-declared", Desc: fmt.Sprintf("declares %d, nothing follows", declared), Keys: true, First: first})
 		}
+		// the 4-byte handshake header itself split over two records (the announced length becomes known only with the
+		// second record), announcing more than the limit, followed by 2 MB of handshake records
+		for _, declared := range []int{65537, 0xffffff} {
+			for k := 1; k <= 3; k++ {
+				hdr := []byte{1, byte(declared >> 16), byte(declared >> 8), byte(declared)}
+				full := tlsref.Record(22, 0x0301, hdr[:k])
+				full = append(full, tlsref.Record(22, 0x0301, append(slices.Clone(hdr[k:]), make([]byte, 16000)...))...)
+				full = append(full, bytes.Repeat(tlsref.Record(22, 0x0301, make([]byte, 16384)), 128)...)
+				emit(kase{Family: "multi-record-hello-declared", Desc: fmt.Sprintf("header split after %d bytes declares %d, 2 MB follow", k, declared), Keys: true, First: full})
+			}
+		}
 		// a fragment followed by empty handshake records, by a non-handshake record, by 2000 one-byte fragments
 		head := tlsref.Record(22, 0x0301, msgGood[:10])
 		emit(kase{Family: "multi-record-hello-continuation", Desc: "empty fragments", Keys: true, First: append(slices.Clone(head), bytes.Repeat(tlsref.Record(22, 0x0301, nil), 3000)...)})
@@ -462,6 +473,11 @@ func runCase(idx int, k kase, keys []ech.Key, measure bool) (res result) {
 		res.Outcome = "panic"
 		return
 	}
+	// whatever NewConn consumes while it reads the first hello it holds: a hello is at most 64 KiB, in fragments of at least one
+	// byte (5 bytes of record header each), so consuming more than that before deciding means holding more than that
+	if consumed, lim := len(k.First)-sess.T.Pending(), 6*(65536+4)+recSize; consumed > lim {
+		fail("hello-read-unbounded:"+k.Family, fmt.Sprintf("NewConn consumed (and held) %d bytes of the first flight before returning err=%v (limit %d)", consumed, err, lim))
+	}
 	if err != nil && measure {
 		var ms1 runtime.MemStats
 		runtime.ReadMemStats(&ms1)
@@ -604,7 +620,7 @@ func Worker(tier string, shard, nshards int) {
 
 // Run is the parent: spawns the workers and aggregates.
 func Run(r *ev.Run) {
-	r.Rule("grammar-bounded exhaustive enumeration (E1) in 16 memory-capped (ulimit -v 4 GiB) single-threaded worker processes with a 20 s hang watchdog: (a) every sequence of <=2 (thorough 3) alternatives out of 47 well-/ill-formed variants of the extensions the parser interprets (SNI, ALPN, supported_versions, ech_outer_extensions, ECH: types 0/1/2, empty enc, empty/short payload, every header truncation, trailing bytes) in the outer hello with/without keys and inside a SEALED inner hello; (b) reference lists (missing, repeated, 127 entries, naming ECH); (c) every length field of plain/sealed/garbage hellos set to {0, true-1, true+1, max} and all pairs of fields; the message cut at every byte; (d) first record of every content type x length {0,1,5}, declared lengths up to 65535; (e) after an accepted / passed-through hello: every record over 7 content types x 5 lengths in either direction, all ordered pairs, ServerHello/HRR cut at every byte, length lies, split at every 3rd offset, illegal declared lengths written in 40 kB pieces, 3000 tiny records per call; (f) after HRR: second hello cut at every byte, every length field mutated, extra extensions. Oracles: no panic (recovered), no call returns 0,nil without consulting the transport, bytes allocated by the calls <= 88x the bytes moved + 12 records per call + 1 record per input record (TotalAlloc delta), heap retained by the Conn after the calls <= 8 x max(record, hello up to 64 KiB) + 16 KiB (measured with forced GC, GOMAXPROCS=1, harness-held bytes subtracted, confirmed by re-execution), no call longer than 20 s. distinct = distinct case indexes with distinct bytes")
+	r.Rule("grammar-bounded exhaustive enumeration (E1) in 16 memory-capped (ulimit -v 4 GiB) single-threaded worker processes with a 20 s hang watchdog: (a) every sequence of <=2 (thorough 3) alternatives out of 47 well-/ill-formed variants of the extensions the parser interprets (SNI, ALPN, supported_versions, ech_outer_extensions, ECH: types 0/1/2, empty enc, empty/short payload, every header truncation, trailing bytes) in the outer hello with/without keys and inside a SEALED inner hello; (b) reference lists (missing, repeated, 127 entries, naming ECH); (c) every length field of plain/sealed/garbage hellos set to {0, true-1, true+1, max} and all pairs of fields; the message cut at every byte; (d) first record of every content type x length {0,1,5}, declared lengths up to 65535; (e) after an accepted / passed-through hello: every record over 7 content types x 5 lengths in either direction, all ordered pairs, ServerHello/HRR cut at every byte, length lies, split at every 3rd offset, illegal declared lengths written in 40 kB pieces, 3000 tiny records per call; (f) after HRR: second hello cut at every byte, every length field mutated, extra extensions. Oracles: no panic (recovered), NewConn consumes at most 6x(64 KiB+4) bytes plus one record of the first flight before it decides, no call returns 0,nil without consulting the transport, bytes allocated by the calls <= 88x the bytes moved + 12 records per call + 1 record per input record (TotalAlloc delta), heap retained by the Conn after the calls <= 8 x max(record, hello up to 64 KiB) + 16 KiB (measured with forced GC, GOMAXPROCS=1, harness-held bytes subtracted, confirmed by re-execution), no call longer than 20 s. distinct = distinct case indexes with distinct bytes")
 	r.Assume("byte noise outside the grammar is not explored (that would be fuzzing, another family)", "memory bound applies to what the Conn retains after a call returns; a single Write call may transiently hold the caller's own buffer")
 	generate(r.Thorough(), func(k kase) {
 		key := string(k.First)
